@@ -478,9 +478,13 @@ def run(ctx):
     ctx.attempt(r52b, ctx)
     ctx.rule("R-5.8", "progress of the re-sort: the partner column is the first one where the misplaced path itself has zero weight (symbolic evaluation over the staircase weight row)", floor=1)
     ctx.attempt(r58, ctx)
+    ctx.rule("R-5.9", "the Monte-Carlo P matrix of large blocks is normalised by the number of accumulated samples (shared with C02 R-2.9): the probabilities sum to one, a job can be drawn", floor=1)
+    from . import c02 as _c02
+    ctx.attempt(_c02.r29, ctx, "R-5.9")
 
 
 VARIANTS = [
+    B("c05-montecarlo-divisor-off-by-one", REPEX, "        return out / (n + 1)\n", "        return out / n\n", "R-5.9", control=True, why="seeded C05_h"),
     B("c05-partner-column-by-count", REPEX, "            zero_idx = list(self.state[ens_idx][1:-1]).index(0) + 1", "            zero_idx = int(np.count_nonzero(self.state[ens_idx][:-1]))", "R-5.8", control=True, why="seeded C05_g"),
     B("c05-partner-column-shift-dropped", REPEX, "            zero_idx = list(self.state[ens_idx][1:-1]).index(0) + 1", "            zero_idx = list(self.state[ens_idx][1:-1]).index(0)", "R-5.8"),
     B("c05-partner-column-from-minus-column", REPEX, "            zero_idx = list(self.state[ens_idx][1:-1]).index(0) + 1", "            zero_idx = list(self.state[ens_idx][:-1]).index(0) + 1", "R-5.8"),
